@@ -715,6 +715,9 @@ func (e *Env) callExpr(n *ECall) Val {
 		case "kv":
 			w := e.world(argv(0))
 			return Val{S: "KV", T: "(select (w_kv " + w + ") " + svcID(argv(1)) + ")"}
+		case "kvOf":
+			// kvOf(w, svc): the key-value store of service svc in world w
+			return Val{S: "KV", T: "(select (w_kv " + argv(0).T + ") " + svcID(argv(1)) + ")"}
 		case "store":
 			if len(n.Args) == 1 && e.recv != nil {
 				w := e.world(argv(0))
